@@ -372,8 +372,10 @@ fn main() {
         let oob = oob_every > 0 && k % oob_every == oob_every - 1;
         // every 15th program may contain the shape of finding F4 (`prog-aggsel`)
         let aggsel = !oob && k % 15 == 7;
-        let p = gen_program(&mut r, k, oob, aggsel);
-        items.push(Item { kind: if oob { "prog-oob".to_string() } else if aggsel { "prog-aggsel".to_string() } else { "prog".to_string() }, sexp: p.to_sexp(), sw: p.to_sw(), test: p.test_name() });
+        // every 6th program is a near-duplicate family program (an ORDINARY stream: fn-dedup / const demotion)
+        let neardup = !oob && !aggsel && k % 6 == 3;
+        let p = if neardup { gen_neardup_program(&mut r, k) } else { gen_program(&mut r, k, oob, aggsel) };
+        items.push(Item { kind: if oob { "prog-oob".to_string() } else if aggsel { "prog-aggsel".to_string() } else if neardup { "prog-neardup".to_string() } else { "prog".to_string() }, sexp: p.to_sexp(), sw: p.to_sw(), test: p.test_name() });
     }
     let t0 = std::time::Instant::now();
     // e2e scripts: `--e2e N` or `--e2e auto` (3 in the quick tier, 12 in the thorough tier); their worker
